@@ -226,7 +226,7 @@ func c24SchedRun(in c24SchedIn) (V, Verdict) {
 	log := newC24Log()
 	g.OnLocalCandidate(log.handler)
 
-	s := NewSched()
+	s := NewSched().Only("gather.")
 	agent := s.AddSpawned("agent", "gather.cb.")
 	for j := 0; j < in.NFlush; j++ {
 		s.Add(fmt.Sprintf("flush%d", j), func() { g.VerifFlushCandidates() })
